@@ -267,6 +267,12 @@ type parser struct {
 	//
 	afterArrowBodyLoc logger.Loc
 
+	// An UpdateExpression such as "a++" is not a LeftHandSideExpression, so it
+	// cannot be called, indexed, or used as a template tag. When "a++" is
+	// followed by a newline and then "(", "[", or a template literal, automatic
+	// semicolon insertion ends the expression there instead.
+	afterPostfixLoc logger.Loc
+
 	// Setting this to true disables warnings about code that is very likely to
 	// be a bug. This is used to ignore issues inside "node_modules" directories.
 	// This has caught real issues in the past. However, it's not esbuild's job
@@ -4304,6 +4310,15 @@ func (p *parser) parseSuffix(left js_ast.Expr, level js_ast.L, errors *deferredE
 		}
 		isAfterAs := operatorRange.Loc == afterAsLoc
 
+		// Stop now for "a++\n(b)", "a++\n[b]", and "a++\n`b`"
+		if operatorRange.Loc == p.afterPostfixLoc {
+			switch p.lexer.Token {
+			case js_lexer.TOpenParen, js_lexer.TOpenBracket,
+				js_lexer.TNoSubstitutionTemplateLiteral, js_lexer.TTemplateHead:
+				return left
+			}
+		}
+
 		// Reset the optional chain flag by default. That way we won't accidentally
 		// treat "c.d" as OptionalChainContinue in "a?.b + c.d".
 		oldOptionalChain := optionalChain
@@ -4588,6 +4603,9 @@ func (p *parser) parseSuffix(left js_ast.Expr, level js_ast.L, errors *deferredE
 			}
 			p.lexer.Next()
 			left = js_ast.Expr{Loc: left.Loc, Data: &js_ast.EUnary{Op: js_ast.UnOpPostDec, Value: left}}
+			if p.lexer.HasNewlineBefore {
+				p.afterPostfixLoc = p.lexer.Loc()
+			}
 
 		case js_lexer.TPlusPlus:
 			if p.lexer.HasNewlineBefore || level >= js_ast.LPostfix {
@@ -4595,6 +4613,9 @@ func (p *parser) parseSuffix(left js_ast.Expr, level js_ast.L, errors *deferredE
 			}
 			p.lexer.Next()
 			left = js_ast.Expr{Loc: left.Loc, Data: &js_ast.EUnary{Op: js_ast.UnOpPostInc, Value: left}}
+			if p.lexer.HasNewlineBefore {
+				p.afterPostfixLoc = p.lexer.Loc()
+			}
 
 		case js_lexer.TComma:
 			if level >= js_ast.LComma {
@@ -17925,6 +17946,7 @@ func newParser(log logger.Log, source logger.Source, lexer js_lexer.Lexer, optio
 		regExpRef:          ast.InvalidRef,
 		bigIntRef:          ast.InvalidRef,
 		afterArrowBodyLoc:  logger.Loc{Start: -1},
+		afterPostfixLoc:    logger.Loc{Start: -1},
 		firstJSXElementLoc: logger.Loc{Start: -1},
 		importMetaRef:      ast.InvalidRef,
 		superCtorRef:       ast.InvalidRef,
